@@ -20,7 +20,7 @@
 (* `macro_items.len() - 1`, which needs a recorded item the parser cannot   *)
 (* guarantee; since fix 72e2986 it is `pop()` and no precondition is left. *)
 (***************************************************************************)
-EXTENDS Naturals, Integers, Sequences, FiniteSets, TLC, Json, NestV2   \* NestV2: its enumeration is printed in the same TLC run
+EXTENDS Naturals, Integers, Sequences, FiniteSets, TLC, Json, NestV2, ReloadIdx   \* NestV2, ReloadIdx: their enumerations are printed in the same TLC run
 
 Boundary == {0, 1, 5, 8, 30000, 65535}
 CoordBoundary == {0, 1, 766, 767, 851, 900}
